@@ -118,6 +118,7 @@ def drop_natural_aliases(tree):
 class CHECK(Check):
     pid = 'C11'
     level = 'exploration'
+    case_timeout = 900      # one case = one statement / plan on every database of the tier
     assumptions = ['sqlite 3.40 is the reference engine', 'an alias equal to the natural output name of a bare column is not a change of the query']
 
     def setup(self, tier, seed):
